@@ -279,11 +279,33 @@ func Spec(big int) []Node {
 	for i, n := range BoundarySizes {
 		ns = append(ns, Node{Rel: fmt.Sprintf("sizes/s%d.bin", n), Kind: "file", Mode: 0o644, Data: Noise(n, uint64(100+i))})
 	}
+	// many small files in many directories, and files larger than every window and block size a compressor uses
+	firstMany := len(ns)
+	ns = append(ns, Node{Rel: "many", Kind: "dir", Mode: 0o755})
+	for d := 0; d < ManyDirs; d++ {
+		ns = append(ns, Node{Rel: fmt.Sprintf("many/d%02d", d), Kind: "dir", Mode: 0o755})
+		for f := 0; f < ManyFiles; f++ {
+			ns = append(ns, Node{Rel: fmt.Sprintf("many/d%02d/f%03d", d, f), Kind: "file", Mode: 0o644, Data: []byte(fmt.Sprintf("file %d of directory %d\n", f, d))})
+		}
+	}
+	ns = append(ns, Node{Rel: "huge", Kind: "dir", Mode: 0o755})
+	ns = append(ns, Node{Rel: "huge/noise.bin", Kind: "file", Mode: 0o644, Data: Noise(9<<20+5, 777)})
+	ns = append(ns, Node{Rel: "huge/zeros.bin", Kind: "file", Mode: 0o644, Data: make([]byte, 12<<20)})
 	for i := range ns {
 		ns[i].MTime = mt(i + 1).Add(FracOf[ns[i].Rel])
+		if i >= firstMany {
+			// minutes apart: thousands of nodes stay within the years of the others
+			ns[i].MTime = mt(firstMany + 1).Add(time.Duration(i-firstMany) * 61 * time.Second)
+		}
 	}
 	return ns
 }
+
+// ManyDirs x ManyFiles small files make up the many/ fixture tree.
+const (
+	ManyDirs  = 20
+	ManyFiles = 100
+)
 
 // Materialize creates the nodes under root (root must not exist or be empty).
 func Materialize(root string, nodes []Node) (*Tree, error) {
